@@ -515,6 +515,7 @@ func NewNXActionResubmit(inPort uint16) *NXActionResubmit {
 	a.NXActionHeader = NewNxActionHeader(NXAST_RESUBMIT)
 	a.Length = a.NXActionHeader.Len() + 6
 	a.InPort = inPort
+	a.TableID = OFPTT_ALL
 	a.pad = [3]byte{}
 	return a
 }
@@ -550,6 +551,7 @@ func (a *NXActionResubmit) UnmarshalBinary(data []byte) error {
 		return errors.New("the []byte is too short to unmarshal a full NXActionConjunction message")
 	}
 	a.InPort = binary.BigEndian.Uint16(data[n:])
+	a.TableID = OFPTT_ALL
 
 	return err
 }
